@@ -345,7 +345,8 @@ class LSym:
             n = len(a) if isinstance(a, list) else len(b)
             if not isinstance(a, list): a = [a] * n
             if not isinstance(b, list): b = [b] * n
-            return [self.binop(op, w, x, y, flags) for x, y in zip(a, b)]
+            # a lane computed from an undef / poison lane is poison (LLVM leaves the lanes it does not need undefined); it is never used
+            return [(UNDEF if (x is UNDEF or y is UNDEF) else self.binop(op, w, x, y, flags)) for x, y in zip(a, b)]
         ctx = self.ctx
         if op == "xor": return self.op_xor(w, a, b)
         if op == "and": return self.op_and(w, a, b)
